@@ -3449,7 +3449,7 @@ static size_t ZSTD_copyBlockSequences(SeqCollector* seqCollector, const seqStore
         /* Update repcode history for the sequence */
         ZSTD_updateRep(repcodes.rep,
                        inSeqs[i].offBase,
-                       inSeqs[i].litLength == 0);
+                       outSeqs[i].litLength == 0);   /* full length : the stored 16-bit field is 0 for a literal run of 65536 */
 
         nbOutLiterals += outSeqs[i].litLength;
     }
